@@ -260,6 +260,10 @@ def evaluate(case):
         offmax = np.radians(180) if cfg["offcone"] is None else np.radians(cfg["offcone"])
         for round_ in range(2):
             nev += 1
+            if round_ == 1 and cfg["antennas"] == "one" and cfg["writer"] != "hdf5":
+                # the antenna collection handed to the kernel grows between two events (a detector being extended): the second
+                # event serves the antennas that are there when it is produced
+                ants.append(_antennas("two")[1])
             before = [len(a.signals) for a in ants]
             count_before = gen.count
             try:
@@ -356,7 +360,10 @@ def evaluate(case):
                             not isinstance(call["triggered"], dict) or
                             call["triggered"] != {k: f(ants) for k, f in _trig_dict(cfg["triggers"]).items()}):
                         fail("writer-trigger", "trigger dict passed to the writer is %r" % (call["triggered"],))
-                    for i in range(len(ants)):
+                    if len(call["ray_paths"]) != len(ants) or len(call["polarizations"]) != len(ants):
+                        fail("writer-alignment", "the writer was handed ray paths for %d and polarizations for %d antennas; the kernel has %d"
+                             % (len(call["ray_paths"]), len(call["polarizations"]), len(ants)))
+                    for i in range(min(len(ants), len(call["ray_paths"]), len(call["polarizations"]))):
                         n_sig = len(ants[i].signals) - before[i]
                         rp, pl = call["ray_paths"][i], call["polarizations"][i]
                         if not (len(rp) == len(pl) == n_sig):
